@@ -1039,6 +1039,10 @@ class C13(Prop):
     """A partially decoded value used as a template for the rest (no filter)."""
     import itertools
     pg = _setup_pg()['pg']
+    if isinstance(v, list) and not isinstance(v, pg.List):
+      # a root-level manyof decodes to a plain Python list; plain containers are not templates
+      # (pg.template([pg.oneof(..)]).decode raises AttributeError on the unchanged tree): wrap it
+      v = pg.List(v)
     t2 = pg.template(v)
     spec2 = t2.dna_spec()
     size = None if spec2.space_size < 0 else spec2.space_size
